@@ -587,6 +587,14 @@ func main() {
 		}
 		exit(2)
 	}
+	if *replay == "" {
+		// replay files of an earlier run of this tier are stale now
+		if old, _ := filepath.Glob(filepath.Join(verif, "replays", id, tier+"-*.json")); len(old) > 0 {
+			for _, o := range old {
+				os.Remove(o)
+			}
+		}
+	}
 	if len(fresh) > 0 {
 		rdir := filepath.Join(verif, "replays", id)
 		os.MkdirAll(rdir, 0o755)
